@@ -90,7 +90,7 @@ func (f *frame) enterLoop(li *loopInfo, b *ssa.BasicBlock, pc *Term, st State) (
 		c.havocAll(st)
 	}
 	for _, h := range ms.list() {
-		c.havocHeap(st, h)
+		c.havocHeapLoop(st, h)
 	}
 	ghostsInLoop := f.ghostsWrittenIn(li)
 	for _, k := range sortedKeys(st) {
@@ -324,6 +324,14 @@ func verifyFunc(prog *Program, specs *SpecSet, sp *FuncSpec) (res *FuncResult) {
 		}
 		for _, h := range sortedKeys(out) {
 			if allowed[h] || h == "$alloc" || strings.HasPrefix(h, "$visited") || h == "$epoch" || strings.HasPrefix(h, "ghost$") {
+				continue
+			}
+			if out[h] == loopMarker {
+				continue // only in a loop's static mod-set; never actually touched
+			}
+			if out[h] == havocMarker {
+				// overwritten by a callee and never read again: cannot be shown unchanged
+				f.emit("frame", f.oblName("frame("+h+")"), retPc, False, fn.Pos(), nil)
 				continue
 			}
 			before, ok := f.entry[h]
